@@ -382,18 +382,98 @@ def rule_termination(ctx):
         if v not in index:
             strong(v)
     rec = [c for c in sccs if len(c) > 1 or c[0] in g.get(c[0], ())]
-    ALLOWED = {
-        "utils::is_type_parameter_used_in_type": "recurses on `qself.ty`, generic argument types and `ty.elem`: strict sub-terms of the type",
+    # recursion guarded otherwise than by structural descent (one reason each)
+    DEPTH_GUARDED = {
         "utils::parse_punctuated_nested_meta": "recursion passes `Some(name)` as wrapper; a nested `not`/list under a wrapper is rejected or parsed one level deeper only (depth <= 3)",
-        "<syn::Type as fmt::ContainsGenericsExt>::contains_generics": "recurses on elem / elems / inputs / output / qself / path arguments: strict sub-terms",
-        "<syn::Path as fmt::ContainsGenericsExt>::contains_generics": "mutually recursive with Type::contains_generics on generic argument types: strict sub-terms",
     }
     for comp in rec:
+        names = {re.sub(r"<[^<>]*>", "", p).split("::")[-1] for p in comp}
         for fnp in sorted(comp):
             ctx.instance(f"recursive:{fnp}", sample={"fn": fnp, "scc": sorted(comp)})
             if fnp.startswith("<") and "as std::fmt::Debug>" in fnp:
                 continue
-            if fnp not in ALLOWED:
-                ctx.report(f"term:{fnp}", fnp, f"`{fnp}` is (mutually) recursive ({sorted(comp)}) and has no termination argument on record: unbounded recursion overflows the compiler's stack", {})
+            if fnp in DEPTH_GUARDED:
+                continue
+            verdict = _structural_descent(ctx, fnp, names)
+            if verdict is not True:
+                ctx.report(
+                    f"term:{fnp}",
+                    fnp,
+                    f"`{fnp}` is (mutually) recursive ({sorted(comp)}) and {verdict}: unbounded recursion overflows the compiler's stack",
+                    {},
+                )
     ctx.note(f"{len(rec)} recursive components: {[sorted(c) for c in rec]}")
     # loops of the two hand-written parsers are covered by G-COMB / G-TAB (progress) and SPLIT-TAB (scanner)
+
+
+def _strip(e):
+    while A.kind(e) in ("Expr::Reference", "Expr::Paren", "Expr::Group") or (A.kind(e) == "Expr::Unary" and A.kind(e.get("op")) == "UnOp::Deref"):
+        e = e["expr"]
+    return e
+
+
+def _decreasing(fn, e, depth=0):
+    """is `e` a strict sub-term of something the function received (a projection of, or a variable bound by destructuring / iterating, a parameter)?"""
+    from .. import types as TY
+
+    e = _strip(e)
+    k = A.kind(e)
+    if k == "Expr::Field":
+        return True
+    if k == "Expr::MethodCall":
+        if e["method"]["sym"] in ("stream", "as_ref", "as_deref", "as_mut", "iter", "clone", "deref"):
+            r = _strip(e["receiver"])
+            if A.kind(r) == "Expr::Field":
+                return True
+            if A.kind(r) == "Expr::Path":
+                return _decreasing(fn, r, depth) or _is_pattern_var(fn, r)
+        return False
+    if k == "Expr::Path":
+        nm = A.path_str(e)
+        if nm is None or "::" in nm:
+            return False
+        off = A.span_of(e)[0]
+        b = TY.resolve(fn, nm, off)
+        if b is None:
+            return False
+        if b["kind"] == "param":
+            return False
+        if b["kind"] == "let":
+            return depth < 4 and b.get("init") is not None and _decreasing(fn, b["init"], depth + 1)
+        # arm / iflet / closure / for: bound by a pattern over (part of) the input
+        if b["kind"] in ("arm", "iflet"):
+            return A.kind(b["pat"]) != "Pat::Ident" or True
+        return True
+    return False
+
+
+def _is_pattern_var(fn, e):
+    from .. import types as TY
+
+    nm = A.path_str(e)
+    b = TY.resolve(fn, nm, A.span_of(e)[0]) if nm and "::" not in nm else None
+    return b is not None and b["kind"] in ("arm", "iflet", "closure", "for")
+
+
+def _structural_descent(ctx, fnp, names):
+    """True when every call from the function(s) named like `fnp` into its recursive component hands over a strict sub-term; else a reason"""
+    last = re.sub(r"<[^<>]*>", "", fnp).split("::")[-1]
+    cands = []
+    for rel, f in ctx.files.items():
+        if rel.startswith("impl/src/"):
+            cands += [fn for fn in A.functions(f) if fn.name == last and fn.block is not None]
+    if not cands:
+        return f"its source was not found under the name `{last}`"
+    for fn in cands:
+        for x, ps in A.walk(fn.block):
+            k = A.kind(x)
+            args = None
+            if k == "Expr::Call" and A.kind(x["func"]) == "Expr::Path" and A.path_str(x["func"]).split("::")[-1] in names:
+                args = list(x["args"])
+            elif k == "Expr::MethodCall" and x["method"]["sym"] in names:
+                args = [x["receiver"]] + list(x["args"])
+            if args is None:
+                continue
+            if not any(_decreasing(fn, a) for a in args):
+                return f"its call `{A.render(x)[:80]}` (line {fn.file.line(A.span_of(x)[0])}) passes no strict sub-term of its own input"
+    return True
